@@ -168,7 +168,25 @@ const (
 	modeTypical = iota // valid, ordinary sizes
 	modeMin            // valid, smallest / boundary content
 	modeBad            // outside the round-trip domain (empty element, dangling data, ...)
+	modeCarry          // valid, sized so that a length field sits at 253..258 / 509..514
 )
+
+var carrySizes = []int{253, 254, 255, 256, 257, 258, 509, 510, 511, 512, 513, 514}
+
+// carry: a size near an 8/9-bit carry, minus the framing overhead of the field
+func carry(c *vh.Ctx, overhead, max int) int {
+	n := carrySizes[c.Intn(len(carrySizes))] - overhead
+	if n > max {
+		n = carrySizes[c.Intn(6)] - overhead
+	}
+	if n > max {
+		n = max
+	}
+	if n < 1 {
+		n = 1
+	}
+	return n
+}
 
 // n elements: typical 1..max, min 1
 func cnt(c *vh.Ctx, mode, max int) int {
@@ -181,6 +199,28 @@ func cnt(c *vh.Ctx, mode, max int) int {
 const numSHExt = 13
 
 func setSHExt(c *vh.Ctx, m *tls.VerifMsg, j, mode int) {
+	if mode == modeCarry {
+		switch j {
+		case 2:
+			m.SecureRenegotiationSupported, m.SecureRenegotiation = true, c.Bytes(carry(c, c.Intn(2), 255))
+		case 3:
+			m.ALPNProtocol = c.Bytes(carry(c, []int{0, 1, 3}[c.Intn(3)], 255))
+		case 4:
+			m.SCTList = [][]byte{c.Bytes(carry(c, []int{0, 2, 4}[c.Intn(3)], 600))}
+		case 6:
+			m.ServerShare = tls.VerifKeyShare{Group: 29, Data: c.Bytes(carry(c, []int{0, 2, 4}[c.Intn(3)], 600))}
+		case 8:
+			m.Cookie = c.Bytes(carry(c, c.Intn(2)*2, 600))
+		case 10:
+			m.SupportedPoints = c.Bytes(carry(c, c.Intn(2), 255))
+		case 12:
+			d := c.Bytes(carry(c, c.Intn(2)*4, 600))
+			m.UnknownExtensions = [][]byte{append([]byte{0, 15, byte(len(d) >> 8), byte(len(d))}, d...)}
+		default:
+			setSHExt(c, m, j, modeTypical)
+		}
+		return
+	}
 	switch j {
 	case 0:
 		m.OCSPStapling = true
@@ -264,6 +304,51 @@ func setSHExt(c *vh.Ctx, m *tls.VerifMsg, j, mode int) {
 const numCHExt = 18
 
 func setCHExt(c *vh.Ctx, m *tls.VerifMsg, j, mode int) {
+	if mode == modeCarry {
+		switch j {
+		case 0:
+			m.ServerName = c.Bytes(carry(c, []int{0, 3, 5}[c.Intn(3)], 600))
+			if m.ServerName[len(m.ServerName)-1] == '.' {
+				m.ServerName[len(m.ServerName)-1] = 'x'
+			}
+		case 2:
+			m.SupportedCurves = randU16s(c, carry(c, c.Intn(2)*2, 600)/2)
+		case 3:
+			m.SupportedPoints = c.Bytes(carry(c, 0, 255))
+		case 4:
+			m.TicketSupported, m.SessionTicket = true, c.Bytes(carry(c, 0, 600))
+		case 5:
+			m.SupportedSignatureAlgorithms = randU16s(c, carry(c, c.Intn(2)*2, 600)/2)
+		case 6:
+			m.SupportedSignatureAlgorithmsCert = randU16s(c, carry(c, c.Intn(2)*2, 600)/2)
+		case 7:
+			m.SecureRenegotiationSupported, m.SecureRenegotiation = true, c.Bytes(carry(c, c.Intn(2), 255))
+		case 8:
+			m.ALPNProtocols = [][]byte{c.Bytes(255), c.Bytes(carry(c, 256+1+c.Intn(2)*2, 255))}
+			if c.Bool() {
+				m.ALPNProtocols = [][]byte{c.Bytes(carry(c, 1+c.Intn(2)*2, 255))}
+			}
+		case 9:
+			m.ExtendedRandomEnabled, m.ExtendedRandom = true, c.Bytes(carry(c, c.Intn(2)*2, 600))
+		case 12:
+			m.SupportedVersions = randU16s(c, carry(c, c.Intn(2), 254)/2)
+		case 13:
+			m.Cookie = c.Bytes(carry(c, c.Intn(2)*2, 600))
+		case 14:
+			m.KeyShares = []tls.VerifKeyShare{{Group: uint16(c.U64()), Data: c.Bytes(carry(c, []int{0, 4, 6}[c.Intn(3)], 600))}}
+			if c.Bool() {
+				m.KeyShares = append(m.KeyShares, tls.VerifKeyShare{Group: 29, Data: c.Bytes(32)})
+			}
+		case 16:
+			m.PSKModes = c.Bytes(carry(c, c.Intn(2), 255))
+		case 17:
+			m.PSKIdentities = []tls.VerifPSKIdentity{{Label: c.Bytes(carry(c, []int{0, 6, 8}[c.Intn(3)], 600)), ObfuscatedTicketAge: uint32(c.U64())}}
+			m.PSKBinders = [][]byte{c.Bytes(carry(c, c.Intn(2), 255))}
+		default:
+			setCHExt(c, m, j, modeTypical)
+		}
+		return
+	}
 	switch j {
 	case 0:
 		m.ServerName = c.Bytes(cnt(c, mode, 20))
@@ -509,7 +594,7 @@ func init() {
 			}
 			// every extension alone, with boundary / invalid content
 			for j := 0; j < numSHExt; j++ {
-				for _, mode := range []int{modeMin, modeBad} {
+				for _, mode := range []int{modeMin, modeBad, modeCarry} {
 					m := base(4)
 					setSHExt(c, m, j, mode)
 					out = append(out, val{false, m})
@@ -607,7 +692,7 @@ func init() {
 				return m
 			}
 			for j := 0; j < numCHExt; j++ {
-				for _, mode := range []int{modeMin, modeBad} {
+				for _, mode := range []int{modeMin, modeBad, modeCarry} {
 					m := base(4)
 					setCHExt(c, m, j, mode)
 					out = append(out, val{false, m})
